@@ -201,6 +201,16 @@ static void do_clb(vf_case *c) {
 #define G1MUT(P, DESC) do { g1_copy(keep, P); g1_add(P, P, G); g1_norm(P, P); REJ("cp_clb_ver", BV(a, As, b, Bs, cc, ms, x, y, zs), DESC); g1_set_infty(P); REJ("cp_clb_ver", BV(a, As, b, Bs, cc, ms, x, y, zs), DESC " (identity)"); g1_copy(P, keep); } while (0)
 	G1MUT(a, "a + G"); G1MUT(b, "b + G"); G1MUT(cc, "c + G"); for (size_t i = 0; i + 1 < l; i++) { G1MUT(As[i], "an A_i + G"); G1MUT(Bs[i], "a B_i + G"); }
 #define G2MUT(P, DESC) do { g2_copy(keep2, P); g2_add(P, P, G2); g2_norm(P, P); REJ("cp_clb_ver", BV(a, As, b, Bs, cc, ms, x, y, zs), DESC); g2_copy(P, keep2); } while (0)
+	/* compensating alterations: invalid member by member (e(a, Z_i) = e(A_i, g) and e(A_i, Y) = e(B_i, g) hold for EACH i), invisible to a verifier that
+	   only checks sums: pairs +G / -G of the A_i; triples of the B_i altered by the kernel vector (m_j - m_k, m_k - m_i, m_i - m_j) G, which leaves both sum B_i
+	   and sum m_i B_i unchanged */
+	for (size_t i = 0; i + 1 < l; i++) for (size_t j = i + 1; j + 1 < l; j++) { g1_t k1, k2; g1_null(k1); g1_new(k1); g1_null(k2); g1_new(k2); g1_copy(k1, As[i]); g1_copy(k2, As[j]); g1_add(As[i], As[i], G); g1_norm(As[i], As[i]); g1_sub(As[j], As[j], G); g1_norm(As[j], As[j]); snprintf(d2, sizeof d2, "A_%zu + G and A_%zu - G (sum unchanged)", i + 1, j + 1); REJ("cp_clb_ver", BV(a, As, b, Bs, cc, ms, x, y, zs), d2); g1_copy(As[i], k1); g1_copy(As[j], k2);
+		g1_copy(k1, Bs[i]); g1_copy(k2, Bs[j]); g1_add(Bs[i], Bs[i], G); g1_norm(Bs[i], Bs[i]); g1_sub(Bs[j], Bs[j], G); g1_norm(Bs[j], Bs[j]); snprintf(d2, sizeof d2, "B_%zu + G and B_%zu - G (sum unchanged)", i + 1, j + 1); REJ("cp_clb_ver", BV(a, As, b, Bs, cc, ms, x, y, zs), d2); g1_copy(Bs[i], k1); g1_copy(Bs[j], k2); g1_free(k1); g1_free(k2); }
+	if (len) { bn_t n, mm[MB], dd; bn_null(n); bn_new(n); bn_null(dd); bn_new(dd); pc_get_ord(n); for (size_t i = 0; i < l; i++) { bn_null(mm[i]); bn_new(mm[i]); bn_read_bin(mm[i], ms[i], ls[i]); bn_mod(mm[i], mm[i], n); }
+		for (size_t i = 1; i < l; i++) for (size_t j = i + 1; j < l; j++) for (size_t k = j + 1; k < l; k++) { g1_t kp[3], dl; size_t ix[3] = {i, j, k}; g1_null(dl); g1_new(dl); for (int q = 0; q < 3; q++) { g1_null(kp[q]); g1_new(kp[q]); g1_copy(kp[q], Bs[ix[q] - 1]); }
+			for (int q = 0; q < 3; q++) { bn_sub(dd, mm[ix[(q + 1) % 3]], mm[ix[(q + 2) % 3]]); bn_mod(dd, dd, n); if (bn_sign(dd) == RLC_NEG) bn_add(dd, dd, n); g1_mul_gen(dl, dd); g1_add(Bs[ix[q] - 1], Bs[ix[q] - 1], dl); g1_norm(Bs[ix[q] - 1], Bs[ix[q] - 1]); }
+			snprintf(d2, sizeof d2, "B_%zu, B_%zu, B_%zu altered by the kernel vector (sum B_i and sum m_i B_i unchanged)", i, j, k); REJ("cp_clb_ver", BV(a, As, b, Bs, cc, ms, x, y, zs), d2); for (int q = 0; q < 3; q++) { g1_copy(Bs[ix[q] - 1], kp[q]); g1_free(kp[q]); } g1_free(dl); }
+		for (size_t i = 0; i < l; i++) bn_free(mm[i]); bn_free(n); bn_free(dd); }
 	G2MUT(x, "public key X + G2"); G2MUT(y, "public key Y + G2"); for (size_t i = 0; i + 1 < l; i++) G2MUT(zs[i], "a public key Z_i + G2");
 	{ g1_t ia, ib, ic, iA[MB], iB[MB]; g1_null(ia); g1_new(ia); g1_null(ib); g1_new(ib); g1_null(ic); g1_new(ic); g1_set_infty(ia); g1_set_infty(ib); g1_set_infty(ic); for (int i = 0; i < MB; i++) { g1_null(iA[i]); g1_new(iA[i]); g1_null(iB[i]); g1_new(iB[i]); g1_set_infty(iA[i]); g1_set_infty(iB[i]); } REJ("cp_clb_ver", BV(ia, iA, ib, iB, ic, ms, x, y, zs), "the all-identity signature"); g1_free(ia); g1_free(ib); g1_free(ic); for (int i = 0; i < MB; i++) { g1_free(iA[i]); g1_free(iB[i]); } }
 done:
